@@ -52,8 +52,12 @@ def gen_term(r):
         if t > 1 and r.random() < 0.5:
             keep = r.choice((1, 2, 3, 4)); kn = r.randint(1, t + 1)
             src += {1: "kl", 2: "kh", 3: "dl", 4: "dh"}[keep] + str(kn)
+        if keep == 0 and r.random() < 0.25:
+            src = f"({t})" + r.choice("dD") + f"({sd})"           # operands in parentheses: the term ends with `)`
         dmin = dmax = None
         mm = r.random()
+        if src.endswith(")"):
+            mm = 1.0
         if mm < 0.2:
             dmin = r.randint(1, sd); src += "min" + str(dmin)
         elif mm < 0.4:
@@ -107,6 +111,8 @@ def gen_expr(r):
             out += r.choice(WS) + r.choice(["+", "-", "*", "+"]) + r.choice(WS[1:])   # a blank after the operator keeps `-` binary
         out += tok
         chks.append((core, chk))
+    if r.random() < 0.3:
+        out += r.choice([" ", "  ", "\t", "\n", " \r\n", "\t "])      # blanks after the last term belong to no term
     return out, "".join(sorted(cfg)), chks
 
 
@@ -168,6 +174,11 @@ def main(tier):
             if not re.fullmatch(pat, nows(det), flags=re.S):
                 run.violation("detail:not-source-with-rolls-replaced", rep)
                 continue
+            # (a') what an annotation names is a term of the source: no blanks at either end of it
+            for n_, content_ in re.findall(r"(-?\d+)\[([^\[\]=]*)[=\]]", det):
+                if content_ != content_.strip():
+                    run.violation("detail:annotation-names-text-outside-its-term", dict(rep, annotated=content_))
+                    break
             # (b) stripping the annotations leaves arithmetic that evaluates to the result
             if not re.fullmatch(r"[\d\s()+\-*]+", stripped):
                 run.violation("detail:stripped-text-not-arithmetic", dict(rep, stripped=stripped))
@@ -183,7 +194,7 @@ def main(tier):
             k = 0
             for tok, chk in dice_terms:
                 core = tok
-                mm = re.search(r"(-?\d+)\[" + re.escape(core) + r"\s*(?:=([^\[\]]*))?\]", det)
+                mm = re.search(r"(-?\d+)\[" + re.escape(core) + r"(?:=([^\[\]]*))?\]", det)
                 if not mm:
                     continue     # single die whose annotation was elided (rule 1.3)
                 v = int(mm.group(1))
